@@ -43,8 +43,10 @@ Init == /\ scn \in Scenarios
         /\ steps = 0
 
 \* events produced by a scripted behaviour b run from callback (kind, me)
+FreeIdle(st) == IF \E i \in 1..MaxI : st.idles[i] = "none" THEN CHOOSE i \in 1..MaxI : st.idles[i] = "none" /\ \A j \in 1..(i - 1) : st.idles[j] # "none" ELSE 0
 BehEvents(b, kind, me) ==
   CASE b = "addAlarm" /\ nextid <= MaxA -> <<[t |-> "reg_alarm", id |-> nextid, delay |-> 10]>>
+    [] b = "addIdle" /\ FreeIdle(s) # 0 -> <<[t |-> "reg_idle", id |-> FreeIdle(s)]>>     \* enter_idle() called from within a callback
     [] b = "removeAlarm" -> LET tgt == IF kind = "alarm" THEN (me % NA) + 1 ELSE 1
                             IN <<[t |-> "remove_alarm", id |-> tgt, ret |-> s.alarms[tgt].st = "pending"]>>
     [] b = "removeAlarmTwice" -> LET tgt == IF kind = "alarm" THEN (me % NA) + 1 ELSE 1
@@ -83,9 +85,9 @@ ServeWatch(f) ==
 \* all idle callbacks, one after the other; a callback removed by an earlier one is skipped
 RECURSIVE IdleRun(_, _)
 IdleRun(st, i) ==
-  IF i > NI THEN [s |-> st, why |-> "-"]
+  IF i > MaxI THEN [s |-> st, why |-> "-"]
   ELSE IF st.idles[i] # "active" \/ st.raised # {} THEN IdleRun(st, i + 1)
-  ELSE LET b == scn.idles[i]
+  ELSE LET b == IF i <= NI THEN scn.idles[i] ELSE "noop"     \* idle callbacks registered from within callbacks do nothing
            evs == <<[t |-> "idle_cb", id |-> i]>> \o
                   (CASE b = "removeIdle" -> <<[t |-> "remove_idle", id |-> (i % NI) + 1, ret |-> st.idles[(i % NI) + 1] = "active"]>>
                      [] b = "exit" -> <<[t |-> "raise", kind |-> "exit"]>>
